@@ -3,6 +3,7 @@ import OmbottModel.Lemmas.RouteUrlDom
 import OmbottModel.Lemmas.RouteUrlTree
 import OmbottModel.Lemmas.RouteUrlParse
 import OmbottModel.Lemmas.RouterBuiltinEnv
+import OmbottModel.Lemmas.RouterBuiltinFloat
 /-!
 C19 — Building a URL from matched parameters leads back to the same match.
 Property theorems only; helper lemmas live in `Lemmas/RouteUrl*.lean`.
@@ -408,7 +409,8 @@ theorem stable_path_wildcard_unchanged_followers (fc : FloatConv) (env : FilterE
 /-- **`stable_float_wildcard`.**  A `float` wildcard is stable where it stands for every value
 whose formatted text is read back, whole, as the same value and either has a decimal point or is
 not followed in the URL by `.` and a digit (`floatSide`, decidable on the value and the URL built
-for the rest of the rule; implied by `floatValOK`), when the wildcards directly after it keep the
+for the rest of the rule; implied by `floatValOK`, which `float_value_ok_exact` proves for every
+numeral of at most 15 significant digits below 1e16), when the wildcards directly after it keep the
 head of their text. -/
 theorem stable_float_wildcard (fc : FloatConv) (env : FilterEnv) (fenv : FormatEnv) (g : Fid) (p' : List Sym)
     (hg : isFloatFid g = true) (hrun : HeadRun (withBuiltin fc env) (withFloatFmt fenv) p')
@@ -459,6 +461,36 @@ theorem url_rematch_builtin_static (fc : FloatConv) (env : FilterEnv) (fenv : Fo
       matchRule (withBuiltin fc env) r.syms u = some vs :=
   url_rematch_builtin fc env fenv r hd hsel hb hadj path vs hm
     (sideOK_static fc env (withFloatFmt fenv) r.syms path vs hb hpt hm hfl)
+
+/-- **`float_value_ok_exact`**: the `float` side condition holds by itself for every numeral the
+model converts itself.  If the text matched by `-?\d+(\.\d+)?` has at most 15 significant digits
+(`exactDec`) and its decimal point stands after at most 16 digits (value below 1e16), then the
+handler's value is `repr` of that numeral, the formatter `format(Decimal(repr(x)), 'f')` gives its
+positional text — which has a decimal point — and the handler reads that text back, whole, as the
+same value.  A theorem about the concrete converter/formatter pair (text manipulation only). -/
+theorem float_value_ok_exact (fc : FloatConv) (s : Str) (l : FloatLex) (hl : floatLex s = some l)
+    (he : exactDec l.dec = true) (hpt : l.dec.pt ≤ 16) :
+    floatFilter fc s = some ⟨floatVal l.dec, l.len, none⟩ ∧ floatValOK fc (floatVal l.dec) = true := by
+  refine ⟨?_, floatValOK_exact fc hl he hpt⟩
+  unfold floatFilter
+  rw [hl]
+  simp [he]
+
+/-- **`url_rematch_builtin_exact`**: `url_rematch` for rules of plain / `int` / `float` / `path`
+wildcards with **every hypothesis decidable on the rule and the path, none on filters, values or
+URLs**: no converting wildcard directly after another wildcard (`convAfterTok`), no converting
+wildcard anywhere after a `path` wildcard (`pathThenText`: the text after it is then unchanged in
+the URL, and the original match was the longest), and every numeral a `float` wildcard takes from
+the path has at most 15 significant digits and lies below 1e16 (`floatTextsExact`). -/
+theorem url_rematch_builtin_exact (fc : FloatConv) (env : FilterEnv) (fenv : FormatEnv) (r : Route)
+    (hd : urlDomain r = true) (hsel : selFree r = true)
+    (hb : builtinOnly r.syms = true) (hadj : convAfterTok r.syms = false) (hpt : pathThenText r.syms = true)
+    (path : Str) (vs : List Val) (hm : matchRule (withBuiltin fc env) r.syms path = some vs)
+    (hfl : floatTextsExact (withBuiltin fc env) r.syms path = true) :
+    ∃ u, routeUrl (withBuiltin fc env) (withFloatFmt fenv) r (splitArgs r.params vs).1 (splitArgs r.params vs).2 = .ok u ∧
+      matchRule (withBuiltin fc env) r.syms u = some vs :=
+  url_rematch_builtin_static fc env fenv r hd hsel hb hadj hpt path vs hm
+    (floatsOK_of_texts fc env r.syms path vs hm hfl)
 
 /-- **`url_rematch_tree_builtin`**: the same observed where the property observes it, on the tree of
 a router holding only the rule, through C01 (`get_eq_spec`, `insert_wf`, `insert_denote`).  The
@@ -547,6 +579,13 @@ example : urlDomain exFloatPath = true ∧ selFree exFloatPath = true ∧ builti
     floatsOK fc0 exFloatPath.syms [.conv "float:7.5".toList, .str "a/b".toList] = true ∧
     routeUrl (builtinEnv fc0) (withFloatFmt noFmt) exFloatPath [] [("x".toList, .conv "float:7.5".toList), ("p".toList, .str "a/b".toList)]
       = .ok "w/7.5/a/b".toList := by
+  decide +kernel
+
+/-- the hypotheses of `url_rematch_builtin_exact` / `float_value_ok_exact` on that rule and path -/
+example : floatTextsExact (builtinEnv fc0) exFloatPath.syms "w/007.50/a/b".toList = true ∧
+    floatTextsExact (builtinEnv fc0) exFloatPath.syms "w/12345678901234567/a".toList = false ∧
+    floatTextsExact (builtinEnv fc0) exFloatPath.syms "w/10000000000000000.0/a".toList = false ∧
+    (floatLex "007.50/a".toList).map (fun l => (l.dec, exactDec l.dec, l.len)) = some (⟨false, "75".toList, 1⟩, true, 6) := by
   decide +kernel
 
 /-- premises of `stable_path_wildcard` / `stable_float_wildcard`: the handlers accept -/
